@@ -30,8 +30,11 @@ DECIDING = ["limited_runs", "quiescent_points", "bodies_entered"]
 THOROUGH_SHARDS = 12
 
 
-def gen_wide(rng, depth, name="w0", prefix="", counter=None, mapped=False):
+def gen_wide(rng, depth, name="w0", prefix="", counter=None, mapped=False, coro_only=None):
     counter = counter if counter is not None else [0]
+    if coro_only is None:
+        # one program in six has NO `async def` anywhere: every suspending body is a plain def that returns a coroutine
+        coro_only = rng.random() < 0.17
     P = prefix
     nodes = []
     w = rng.randint(1, 4)
@@ -39,8 +42,12 @@ def gen_wide(rng, depth, name="w0", prefix="", counter=None, mapped=False):
     for i in range(w):
         kind = rng.random()
         ns = {"k": "fn", "name": f"{P}f{i}", "params": [{"n": "x"}], "outs": [f"{P}v{i}"]}
-        if kind < 0.55:
+        if coro_only:
+            ns["async"] = "coro" if kind < 0.8 else False
+        elif kind < 0.45:
             ns["async"] = True
+        elif kind < 0.55:
+            ns["async"] = "coro"
         elif kind < 0.75:
             ns["async"] = True
             ns["gen"] = True
@@ -48,7 +55,7 @@ def gen_wide(rng, depth, name="w0", prefix="", counter=None, mapped=False):
             ns["async"] = False
         nodes.append(ns)
         outs.append(f"{P}v{i}")
-    if not mapped and rng.random() < 0.25:
+    if not mapped and not coro_only and rng.random() < 0.25:
         # an auto-answering ASYNC interrupt handler: its body suspends like any node body and must hold a permit
         nodes.append({"k": "int", "name": f"{P}ask", "params": [{"n": "x"}], "outs": [f"{P}ans"], "handler": ["auto", f"ans:{P}"], "async": True})
     inputs = {"x": "run:x"}
@@ -57,7 +64,7 @@ def gen_wide(rng, depth, name="w0", prefix="", counter=None, mapped=False):
             counter[0] += 1
             cn = f"n{counter[0]}"
             do_map = rng.random() < 0.5
-            inner, inner_inputs = gen_wide(rng, depth - 1, name=cn, prefix=f"{cn}_", counter=counter, mapped=mapped or do_map)
+            inner, inner_inputs = gen_wide(rng, depth - 1, name=cn, prefix=f"{cn}_", counter=counter, mapped=mapped or do_map, coro_only=coro_only)
             sub = {"k": "sub", "name": cn, "prog": inner}
             if do_map:
                 # mapped over a list: fan-out at this level
@@ -95,7 +102,8 @@ def one(ctx, i):
     rng = ctx.rng
     depth = rng.randint(0, 3)
     use_map = rng.random() < 0.3
-    spec, inputs = gen_wide(rng, depth, mapped=use_map)
+    # (every seventh program has no `async def` at all: its suspending bodies are plain defs returning coroutines)
+    spec, inputs = gen_wide(rng, depth, mapped=use_map, coro_only=True if i % 7 == 3 else None)
     form = "run"
     map_kw = {}
     if use_map:
